@@ -88,7 +88,7 @@ func init() {
 	})
 	register(&Prop{
 		ID: "C04",
-		Rules: []*Rule{scoped(rEffect, "reading or forwarding an error never rewrites the details it stores from the wire", func(_ *core.Ctx, k string) bool {
+		Rules: []*Rule{rReencodeStable, scoped(rEffect, "reading or forwarding an error never rewrites the details it stores from the wire", func(_ *core.Ctx, k string) bool {
 			return containsAny(k, "SafeDetails", "details", "opaque", "ReportablePayload")
 		}), rOpaque, rDecodeResult, rWireMsg, rTreeRec, rRegType, rCodec, scoped(rShape, "the opaque types", func(_ *core.Ctx, k string) bool { return strings.Contains(k, "opaque") }), rSiblingGuard, rSep},
 		Explain: "Decides that opaque values keep and re-emit exactly what was received (message, details incl. payload Any, message type, causes - R-OPAQUE-TRANSPORT, R-TREE-RECURSION), that the wire message each registered encoder sends is what an unknowing receiver needs to rebuild Error() for the type's Error() shape (R-WIRE-MSG), and that a later knowing receiver rebuilds from payload/details (R-CODEC, R-REGTYPE). " +
